@@ -114,42 +114,48 @@ Definition use_type (prefix suffix : N) : option N :=
 
 Inductive ures := UOk (l : list usedep) | UErr | UDiverge.
 
+Definition use_prefix (s : bytes) : N * bytes :=
+  let c := peek s in if is 33 c || is 45 c then (bn c, tl s) else (0, s).
+Definition use_suffix (s : bytes) : N * bytes :=
+  let c := peek s in if is 61 c || is 63 c then (bn c, tl s) else (0, s).
+(* "(+)" / "(-)": None = unknown USE-default character *)
+Definition use_default (s : bytes) : option (N * bytes) :=
+  if is 40 (peek s) && is 41 (peek2 s) then
+    (if is 43 (peek1 s) then Some (1, tl (tl (tl s)))
+     else if is 45 (peek1 s) then Some (2, tl (tl (tl s)))
+     else None)
+  else Some (0, s).
+(* one iteration of the loop of parseUseDependencies up to the separator: the suffix may
+   stand before the default, flag=(+), or after it, flag(+)= (PMS) *)
+Definition parse_use1 (s : bytes) : option (usedep * bytes) :=
+  let '(prefix, s1) := use_prefix s in
+  if negb (is_useflag_char (peek s1)) then None else
+  let '(flag, s2) := span is_useflag_char s1 in
+  let '(suffix1, s3) := use_suffix s2 in
+  match use_default s3 with
+  | None => None
+  | Some (d, s4) =>
+    let '(suffix, s5) := if suffix1 =? 0 then use_suffix s4 else (suffix1, s4) in
+    match use_type prefix suffix with
+    | None => None
+    | Some tp => Some (MkUse tp d flag, s5)
+    end
+  end.
+
 (* parseUseDependencies: one loop iteration per fuel unit *)
 Fixpoint parse_use_deps (fuel : nat) (s : bytes) : ures :=
   match fuel with
   | O => UDiverge
   | S f =>
-    let c0 := peek s in
-    let '(prefix, s1) := if is 33 c0 || is 45 c0 then (bn c0, tl s) else (0, s) in
-    if negb (is_useflag_char (peek s1)) then UErr else
-    let '(flag, s2) := span is_useflag_char s1 in
-    let c2 := peek s2 in
-    (* the suffix may stand before the default, flag=(+), or after it, flag(+)= (PMS) *)
-    let suffix_first := is 61 c2 || is 63 c2 in
-    let '(suffix1, s3) := if suffix_first then (bn c2, tl s2) else (0, s2) in
-    let dflt :=
-      if is 40 (peek s3) && is 41 (peek2 s3) then
-        (if is 43 (peek1 s3) then Some (1, tl (tl (tl s3)))
-         else if is 45 (peek1 s3) then Some (2, tl (tl (tl s3)))
-         else None)
-      else Some (0, s3) in
-    match dflt with
+    match parse_use1 s with
     | None => UErr
-    | Some (d, s4) =>
-      let c4 := peek s4 in
-      let '(suffix, s5) :=
-        if negb suffix_first && (is 61 c4 || is 63 c4) then (bn c4, tl s4) else (suffix1, s4) in
-      match use_type prefix suffix with
-      | None => UErr
-      | Some tp =>
-        let dep := MkUse tp d flag in
-        if is 0 (peek s5) then UOk [dep]
-        else if negb (is 44 (peek s5)) then UErr
-        else match parse_use_deps f (tl s5) with
-             | UOk l => UOk (dep :: l)
-             | e => e
-             end
-      end
+    | Some (dep, s5) =>
+      if is 0 (peek s5) then UOk [dep]
+      else if negb (is 44 (peek s5)) then UErr
+      else match parse_use_deps f (tl s5) with
+           | UOk l => UOk (dep :: l)
+           | e => e
+           end
     end
   end.
 
@@ -340,53 +346,59 @@ Definition take_prefix (s : bytes) : bool * bool * N * bytes :=
     else (R_none, s1) in
   (bl, hb, relop, s2).
 
+(* the USE-dependency part (asDependencyAtom) or the check that nothing follows the atom *)
+Definition use_part (asdep : bool) (s5 : bytes) : upart :=
+  if asdep then
+    match take_usedep s5 with
+    | (Some inner, r) =>
+      match parse_use_deps (S (length inner)) inner with
+      | UOk l => AOk' l r
+      | UErr => AErr'
+      | UDiverge => ADiverge'
+      end
+    | (None, r) => AOk' [] r
+    end
+  else if isnil s5 then AOk' [] s5 else AErr'.
+
+(* the name/version split and the checks on the operator: (category/name text, version
+   pieces, operator) or None = error *)
+Definition atom_header (namever : bytes) (relop : N) (vnr : bool) : option (bytes * option vertail * N) :=
+  match ver_split namever with
+  | Some (pre, t) =>
+    if (relop =? R_none) && vnr then None
+    else Some (pre, Some t, if vt_glob t then R_range else relop)
+  | None => if relop =? R_none then Some (namever, None, relop) else None
+  end.
+
+Definition finish (atom : bytes) (bl hb : bool) (relop : N) (namever slot sub slotop repo : bytes)
+                  (uses : list usedep) (vnr : bool) : ares :=
+  match atom_header namever relop vnr with
+  | None => AErr
+  | Some (catname, vt, relop') =>
+    match catname_match catname with
+    | None => AErr
+    | Some (cat, name) =>
+      let '(basever, suffix, revision, compver, verrelop) :=
+        match vt with
+        | Some t =>
+          let '(b, sf, rv, cv) := version_fields (vt_ver t) (vt_suf t) (vt_rev t) relop' in
+          (b, sf, rv, cv, if relop' =? R_none then R_eq else relop')
+        | None => ([], [], [], [], R_none)
+        end in
+      let '(sl, sb, slrel, anys, sames) := slot_fields slot sub slotop in
+      AOk (MkParsed atom cat name basever suffix revision compver sl sb repo verrelop slrel
+                    anys sames bl hb uses)
+    end
+  end.
+
 (* RawParseAtomAtCursor: result and the rest of the input after the atom *)
 Definition raw_parse_at (s : bytes) (vnr asdep : bool) : ares * bytes :=
   let '(bl, hb, relop, s2) := take_prefix s in
   let '(namever, s3) := span is_namever s2 in
   let '(slot, sub, slotop, s4) := take_slot s3 in
   let '(repo, s5) := take_repo s4 in
-  let usepart :=
-    if asdep then
-      match take_usedep s5 with
-      | (Some inner, r) =>
-        match parse_use_deps (S (length inner)) inner with
-        | UOk l => AOk' l r
-        | UErr => AErr'
-        | UDiverge => ADiverge'
-        end
-      | (None, r) => AOk' [] r
-      end
-    else if isnil s5 then AOk' [] s5 else AErr' in
-  match usepart with
+  match use_part asdep s5 with
   | AErr' => (AErr, s5)
   | ADiverge' => (ADiverge, s5)
-  | AOk' uses s6 =>
-    let atom := consumed s s6 in
-    let vs := ver_split namever in
-    let hdr :=
-      match vs with
-      | Some (pre, t) =>
-        if (relop =? R_none) && vnr then None
-        else Some (pre, Some t, if vt_glob t then R_range else relop)
-      | None => if relop =? R_none then Some (namever, None, relop) else None
-      end in
-    match hdr with
-    | None => (AErr, s6)
-    | Some (catname, vt, relop') =>
-      match catname_match catname with
-      | None => (AErr, s6)
-      | Some (cat, name) =>
-        let '(basever, suffix, revision, compver, verrelop) :=
-          match vt with
-          | Some t =>
-            let '(b, sf, rv, cv) := version_fields (vt_ver t) (vt_suf t) (vt_rev t) relop' in
-            (b, sf, rv, cv, if relop' =? R_none then R_eq else relop')
-          | None => ([], [], [], [], R_none)
-          end in
-        let '(sl, sb, slrel, anys, sames) := slot_fields slot sub slotop in
-        (AOk (MkParsed atom cat name basever suffix revision compver sl sb repo verrelop slrel
-                       anys sames bl hb uses), s6)
-      end
-    end
+  | AOk' uses s6 => (finish (consumed s s6) bl hb relop namever slot sub slotop repo uses vnr, s6)
   end.
